@@ -128,6 +128,12 @@ def _alt_forms(kwargs, seed):
         v = out.get(k)
         if isinstance(v, int) and not isinstance(v, bool) and rng.random() < 0.5:
             out[k] = float(v)
+    # numbers typed as text (read from a configuration file): pydantic converts "20" and "9.5"
+    for k in ("nrow", "text_font_size", "text_font", "border_width", "text_space_before", "text_space_after",
+              "text_indent_left"):
+        v = out.get(k)
+        if isinstance(v, (int, float)) and not isinstance(v, bool) and rng.random() < 0.15:
+            out[k] = str(v)
     # array-likes: a 1-D numpy array for a per-column vector, a 2-D array or a DataFrame for a matrix
     for k, v in list(out.items()):
         if not (k.startswith("text_") and isinstance(v, list) and len(v) > 1):
@@ -198,7 +204,7 @@ def build_components(spec, tmpdir=None):
             fkw["figures"] = paths
         kw["rtf_figure"] = rtf.RTFFigure(**fkw)
     if "page" in spec:
-        kw["rtf_page"] = rtf.RTFPage(**spec["page"])
+        kw["rtf_page"] = rtf.RTFPage(**_alt_forms(spec["page"], forms and forms + 7))
     t = spec.get("title", "default")
     if t is None:
         kw["rtf_title"] = None
